@@ -5,7 +5,9 @@ Every obligation is an inequality between Nat expressions built from + * / max m
 if-then-else and the generated size functions.  `c07_use [top] [all]`:
   1. unfold only the functions of the right-hand side (the declared depth) and keep the
      callees' declared depths as atoms (the compositional reading) — then `omega`;
-  2. otherwise unfold every (non-recursive) size function that occurs — then `omega`;
+  2. otherwise unfold everything except the size functions of the object constructors
+     (gfpCreate_deep, ecpCreateJ_deep, ...: atoms constrained by the post-condition hypotheses);
+     otherwise unfold every (non-recursive) size function that occurs — then `omega`;
   3. otherwise additionally normalise products (distribute, AC) so that the non-linear
      atoms of both sides coincide — then `omega`.
 No Mathlib.
@@ -22,13 +24,14 @@ macro_rules
         | (simp only [Nat.add_mul, Nat.mul_add, Nat.mul_assoc, Nat.mul_comm, Nat.mul_left_comm,
                       Nat.add_assoc, Nat.zero_add, Nat.add_zero, Nat.mul_one, Nat.one_mul] at *; omega))
 
-syntax "c07_use" "[" Lean.Parser.Tactic.simpLemma,* "]" "[" Lean.Parser.Tactic.simpLemma,* "]" : tactic
+syntax "c07_use" "[" Lean.Parser.Tactic.simpLemma,* "]" "[" Lean.Parser.Tactic.simpLemma,* "]" "[" Lean.Parser.Tactic.simpLemma,* "]" : tactic
 macro_rules
-  | `(tactic| c07_use [$top,*] [$all,*]) => `(tactic|
+  | `(tactic| c07_use [$top,*] [$mid,*] [$all,*]) => `(tactic|
       (repeat' (apply And.intro)) <;>
       first
         | omega
         | (simp only [$top,*]; c07_arith)
+        | (simp only [$mid,*] at *; c07_arith)
         | (simp only [$all,*]; c07_arith)
         | (simp only [$all,*] at *; c07_arith))
 
